@@ -397,8 +397,17 @@ AUTHOBJ = {'_username': 'str', '_method': 'bytes', '_coro': 'opt[obj:Task]'}
 SRV_FIELDS = dict(SRV_OPT_FIELDS, **{
     '_is_client': 'bool', '_username': 'str', '_auth': 'opt[obj:Auth]', '_auth_complete': 'bool',
     '_auth_final': 'bool', '_auth_in_progress': 'bool', '_owner': 'opt[obj:Owner]',
+    # per-user configuration (reload_config): _options is the SSHServerConnectionOptions object in force; its ghost
+    # field ghost_for_user is the user name it was constructed for ("config_user" below).  _auth_gen counts user
+    # switches, _config_gen is the generation for which configuration and begin_auth() verdict are in place.
+    '_options': 'obj:Options', '_auth_gen': 'int', '_config_gen': 'int',
 })
-SRV_CLASSES = dict({'SSHConnection': SRV_FIELDS, 'Auth': AUTHOBJ, 'Task': {}, 'Owner': {}}, **PACKET_CLASSES)
+OPTIONS_FIELDS = {'ghost_for_user': 'str', 'host_based_auth': 'bool', 'public_key_auth': 'bool', 'kbdint_auth': 'bool',
+                  'password_auth': 'bool', 'authorized_client_keys': 'any', 'allow_pty': 'bool',
+                  'x11_forwarding': 'any', 'agent_forwarding': 'any', 'rekey_bytes': 'int', 'rekey_seconds': 'any',
+                  'keepalive_count_max': 'int', 'keepalive_interval': 'any'}
+SRV_CLASSES = dict({'SSHConnection': SRV_FIELDS, 'Auth': AUTHOBJ, 'Task': {}, 'Owner': {},
+                    'Options': OPTIONS_FIELDS}, **PACKET_CLASSES)
 
 
 def opt_parts(v):
@@ -422,6 +431,44 @@ def inv_J(ex, st, self_ref=None):
         return z3.BoolVal(True)
     return z3.Or(isnone, auth_cancelled(ex, st, a),
                  ex.get_field(st, a, '_username').z == ex.get_field(st, self_ref, '_username').z)
+
+
+def config_user(ex, st, self_ref=None):
+    """the user the configuration in force (authorized keys, method switches, pty/forwarding flags) was built for"""
+    self_ref = self_ref or ex.self_ref
+    return ex.get_field(st, ex.get_field(st, self_ref, '_options'), 'ghost_for_user').z
+
+
+def inv_C(ex, st):
+    """helper invariant (from the code): when configuration + begin_auth verdict are marked as in place for the
+    current generation, the configuration in force is the current user's"""
+    g = lambda f: ex.get_field(st, ex.self_ref, f).z
+    return z3.And(g('_config_gen') <= g('_auth_gen'),
+                  z3.Implies(g('_config_gen') == g('_auth_gen'), config_user(ex, st) == g('_username')))
+
+
+def gen_step(ex, st0, st1):
+    """what every atomic step of the connection guarantees about generations (proved on the writers:
+    _process_userauth_request#post(user-changes-only-with-a-new-generation), reload_config#post(...))"""
+    g0 = lambda f: ex.get_field(st0, ex.self_ref, f).z
+    g1 = lambda f: ex.get_field(st1, ex.self_ref, f).z
+    same = g1('_auth_gen') == g0('_auth_gen')
+    return z3.And(g1('_auth_gen') >= g0('_auth_gen'),
+                  z3.Implies(same, g1('_username') == g0('_username')),
+                  z3.Implies(z3.And(same, config_user(ex, st0) == g0('_username')),
+                             config_user(ex, st1) == g1('_username')))
+
+
+def JC_old(c):
+    return z3.And(inv_J(c.ex, c.old_state), inv_C(c.ex, c.old_state))
+
+
+def C_new(c):
+    return inv_C(c.ex, c.new_state)
+
+
+def gen_step_post(c):
+    return gen_step(c.ex, c.old_state, c.new_state)
 
 
 def J_old(c):
@@ -504,6 +551,18 @@ def at_handler_entry(c):
     return c.ex.get_field(c.old_state, c.argv('packet'), '_idx').z == 1
 
 
+def ur_service_is_ssh_connection(c):
+    """RFC 4252 5: authentication is performed for the service named in the request; this server offers only
+    'ssh-connection', so a request that gets as far as being processed names exactly that service"""
+    from pyvc.builtins_model import unbe
+    pkt = c.ex.get_field(c.old_state, c.argv('packet'), '_packet').z
+    i0 = c.ex.get_field(c.old_state, c.argv('packet'), '_idx').z
+    ulen = unbe(z3.Extract(pkt, i0, 4))
+    s0 = i0 + 4 + ulen
+    slen = unbe(z3.Extract(pkt, s0, 4))
+    return z3.And(slen == 14, z3.Extract(pkt, s0 + 4, 14) == bytes_const(b'ssh-connection'))
+
+
 def saslprep_event_stub(cx):
     r = cx.fresh('str', 'saslprep')
     return [Out(ret=r, event=('saslprep', (tuple(cx.args), r))), Out(exc=VExc('SASLPrepError'))]
@@ -519,11 +578,13 @@ process_userauth_request = Spec(
                               'self._finish_userauth': coro_stub('_finish_userauth'),
                               'Auth.cancel': lambda cx: auth_cancel_stub(cx),
                               'str': lambda cx: cx.fresh('str', 'str_of_exc')}),
-    requires=lambda c: z3.And(packet_wf(c, c.argv('packet')), at_handler_entry(c), J_old(c)),
-    ensures=[('class-inv-J', J_new),
+    requires=lambda c: z3.And(packet_wf(c, c.argv('packet')), at_handler_entry(c), JC_old(c)),
+    ensures=[('class-inv-J', J_new), ('class-inv-C', C_new),
+             ('user-changes-only-with-a-new-generation', gen_step_post),
              ('guarantee-live-auth-keeps-its-user', guarantee),
              ('ignored-after-success', ur_ignored_after_success),
-             ('processed-for-the-named-user', ur_processed_for_named_user)],
+             ('processed-for-the-named-user', ur_processed_for_named_user),
+             ('only-for-service-ssh-connection', ur_service_is_ssh_connection)],
     raises={'ProtocolError': lambda c: z3.And(ur_frame(c), z3.Or(c.old('_is_client'), z3.And(
         c.old('_auth_complete'), c.old('_auth_final')))),
             'IllegalUserName': ur_frame, 'ServiceNotAvailable': ur_frame, 'PacketDecodeError': ur_frame})
@@ -531,7 +592,8 @@ process_userauth_request = Spec(
 
 # ---- awaits on the connection side: any other handler may run.  Rely = what every atomic step is proved to
 # preserve: J; _auth_complete is never reset and freezes the user name (ignored-after-success).
-CONN_ENV = ['_username', '_auth', '_auth_complete', '_auth_final', '_owner', '_key_options', '_cert_options']
+CONN_ENV = ['_username', '_auth', '_auth_complete', '_auth_final', '_owner', '_key_options', '_cert_options',
+            '_options', '_auth_gen', '_config_gen']
 
 
 def conn_rely(cx, ret, event=None, exc=None):
@@ -551,6 +613,8 @@ def conn_rely(cx, ret, event=None, exc=None):
     st.next_addr = max(st.next_addr, s2.next_addr)
     assume = [inv_J(ex, s2), z3.Implies(old_complete, z3.And(sets['_auth_complete'].z,
                                                              sets['_username'].z == old_user))]
+    if '_auth_gen' in decl:
+        assume += [inv_C(ex, s2), gen_step(ex, st, s2)]
     return Out(ret=ret, exc=exc, sets=sets, assume=assume, event=event)
 
 
@@ -589,6 +653,9 @@ def fu_lookup_stub(cx):
                z3.BoolVal(True) if a is None else z3.Or(isnone, auth_cancelled(ex, st, a)))
     cx.require('new-attempt-is-for-the-current-user', cx.args[1].z == ex.get_field(st, me, '_username').z)
     cx.require('restrictions-are-pristine-when-an-attempt-starts', is_pristine(ex, st))
+    # the credential check that starts now reads the per-user configuration (authorized keys file, method switches):
+    # it must be the configuration of the user the check is for
+    cx.require('configuration-is-for-the-current-user', config_user(ex, st) == ex.get_field(st, me, '_username').z)
     outs = contract_stub(lambda: lookup_server_auth)(cx)
     for o in outs:
         if o.exc is None:
@@ -658,14 +725,15 @@ finish_userauth = Spec(
     PROP, 'connection', 'SSHConnection._finish_userauth', self_class='SSHConnection',
     params=dict(begin_auth='bool', method='bytes', packet='obj:SSHPacket'),
     classes=SUCC_CLASSES_LAZY, truthy=PACKET_TRUTHY,
-    stubs={'SSHConnection.reload_config': conn_await('reload_config'),
+    stubs={'SSHConnection.reload_config': contract_stub(lambda: reload_config),
            'Owner.begin_auth': owner_call('begin_auth'),
            'await result': conn_await('await_result', 'any'),
            'self.send_userauth_success': fu_success_stub,
+           'self.send_userauth_failure': contract_stub(lambda: send_userauth_failure),
            'Auth.cancel': auth_cancel_stub,
            'lookup_server_auth': fu_lookup_stub},
-    requires=J_old,
-    ensures=[('class-inv-J', J_new), ('new-attempt-is-current', fu_new_attempt_current)],
+    requires=JC_old,
+    ensures=[('class-inv-J', J_new), ('class-inv-C', C_new), ('new-attempt-is-current', fu_new_attempt_current)],
     # the connection may have been cleaned up (_owner = None) during reload_config(): the task dies, nothing granted
     raises={'AttributeError': fu_no_grant})
 
@@ -718,9 +786,10 @@ send_userauth_success = Spec(
            'self._acceptor': ev_stub('acceptor', 'any'), 'self.create_task': conn_create_task_stub,
            'Future.cancelled': ev_stub('cancelled', 'bool'), 'Future.set_result': ev_stub('set_result'),
            'SSHConnection.send_server_host_keys': ev_stub('hostkeys')},
-    requires=J_old,
+    requires=JC_old,
     ensures=[('grant-is-for-the-current-user', succ_grant), ('authenticated-state', succ_state),
-             ('attempt-closed', succ_attempt_closed), ('class-inv-J', J_new),
+             ('attempt-closed', succ_attempt_closed), ('class-inv-J', J_new), ('class-inv-C', C_new),
+             ('generations', gen_step_post),
              ('guarantee-live-auth-keeps-its-user', guarantee)],
     modifies=['_auth', '_auth_in_progress', '_auth_complete', '_next_service', '_acceptor', '_error_handler',
               '_wait'] + [f for f in CONN_ENV if f not in ('_auth', '_auth_complete')])
@@ -738,9 +807,96 @@ send_userauth_failure = Spec(
     PROP, 'connection', 'SSHConnection.send_userauth_failure', self_class='SSHConnection',
     params=dict(partial_success='bool'), classes=SRV_CLASSES,
     stubs={'get_supported_server_auth_methods': ev_stub('methods', 'seq[bytes]'),
-           'NameList': ev_stub('namelist', 'bytes'), 'self.send_packet': ev_stub('send_packet')},
-    requires=J_old,
-    ensures=[('failure-grants-nothing', fail_post), ('class-inv-J', J_new)])
+           'NameList': ev_stub('namelist', 'bytes'), 'self.send_packet': ev_stub('send_packet'),
+           'Auth.cancel': lambda cx: auth_cancel_stub(cx)},
+    requires=JC_old,
+    # G here is what justifies the rely B of every auth task: an auth object dropped by a FAILURE answer must not
+    # keep a live task (e.g. the _finish() task of gssapi-with-mic started by an earlier message of the attempt)
+    ensures=[('failure-grants-nothing', fail_post), ('class-inv-J', J_new), ('class-inv-C', C_new),
+             ('guarantee-live-auth-keeps-its-user', guarantee),
+             ('state-unchanged-but-the-attempt', lambda c: unchanged(c, '_auth_complete', '_username'))],
+    modifies=['_auth'])
+
+
+# ---- reload_config: the per-user configuration the credential checks read
+RELOAD_FIELDS = dict(SUCC_FIELDS, **{
+    '_rdns_lookup': 'bool', '_peer_host': 'str', '_peer_addr': 'str', '_peer_port': 'int', '_loop': 'obj:Loop',
+    '_local_addr': 'any', '_local_port': 'any',
+    '_host_based_auth': 'bool', '_public_key_auth': 'bool', '_kbdint_auth': 'bool', '_password_auth': 'bool',
+    '_authorized_client_keys': 'any', '_allow_pty': 'bool', '_x11_forwarding': 'any', '_agent_forwarding': 'any',
+})
+RELOAD_CLASSES = dict(SUCC_CLASSES, SSHConnection=RELOAD_FIELDS, Loop={}, SocketModule={})
+CONFIG_COPIES = [('_host_based_auth', 'host_based_auth'), ('_public_key_auth', 'public_key_auth'),
+                 ('_kbdint_auth', 'kbdint_auth'), ('_password_auth', 'password_auth'),
+                 ('_authorized_client_keys', 'authorized_client_keys'), ('_allow_pty', 'allow_pty'),
+                 ('_x11_forwarding', 'x11_forwarding'), ('_agent_forwarding', 'agent_forwarding')]
+
+
+def construct_options_stub(cx):
+    """await SSHServerConnectionOptions.construct(..., username=u, ...): an options object built for user u
+    (config file evaluation with %u / Match User: C18); an await - other handlers run meanwhile"""
+    ex, st = cx.ex, cx.st
+    o = cx.fresh('obj:Options', 'new_options')
+    user = cx.kwargs.get('username')
+    out = conn_rely(cx, o, event=('construct', (dict(cx.kwargs), o)))
+    if user is not None:
+        out.assume.append(ex.get_field(st, o, 'ghost_for_user').z == user.z)
+    return [out]
+
+
+construct_options_stub.modifies = tuple(CONN_ENV)
+
+
+def rdns_stub(cx):
+    v = cx.fresh('tuple[str,str]', 'nameinfo')
+    return [conn_rely(cx, v, event=('getnameinfo', (tuple(cx.args), v)))]
+
+
+rdns_stub.modifies = tuple(CONN_ENV)
+
+
+def rc_stored(c):
+    """the options object this activation constructed (None if it got that far not) and 'it is now in force'"""
+    evs = c.events('construct')
+    if not evs:
+        return None, z3.BoolVal(False)
+    o = evs[0][1][1]
+    cur = c.newv('_options')
+    return o, z3.BoolVal(isinstance(cur, VRef) and cur.addr == o.addr)
+
+
+def rc_post(c):
+    """Property: a reload stores its result only if it was computed for the user the connection is (still)
+    authenticating, and never after authentication completed; and what it stores is one consistent configuration"""
+    o, stored = rc_stored(c)
+    if o is None:
+        return z3.BoolVal(True)
+    g = lambda f: c.ex.get_field(c.new_state, o, f)
+    copies = [c.eq(c.newv(f), g(a)) for f, a in CONFIG_COPIES]
+    return z3.Implies(stored, z3.And(g('ghost_for_user').z == c.new('_username'), z3.Not(c.new('_auth_complete')),
+                                     *copies))
+
+
+def rc_fresh(c):
+    """STATE clause for callers: if no user switch happened during the reload and authentication is not complete,
+    the configuration in force on return is the current user's"""
+    return z3.Implies(z3.And(c.new('_auth_gen') == c.old('_auth_gen'), z3.Not(c.new('_auth_complete'))),
+                      config_user(c.ex, c.new_state) == c.new('_username'))
+
+
+def rc_monotone(c):
+    return z3.Implies(c.old('_auth_complete'), z3.And(c.new('_auth_complete'), c.new('_username') == c.old('_username')))
+
+
+reload_config = Spec(
+    PROP, 'connection', 'SSHServerConnection.reload_config', self_class='SSHConnection',
+    classes=RELOAD_CLASSES, setup=lambda ex, st: _hb_setup(ex, st),
+    stubs={'Loop.getnameinfo': rdns_stub, 'SSHServerConnectionOptions.construct': construct_options_stub},
+    requires=JC_old,
+    ensures=[('stored-configuration-belongs-to-the-current-user', rc_post),
+             ('configuration-is-current-unless-superseded', rc_fresh),
+             ('class-inv-J', J_new), ('class-inv-C', C_new), ('generations', gen_step_post),
+             ('auth-complete-is-final', rc_monotone)])
 
 
 # ---- client side: USERAUTH_SUCCESS is honoured only by a client with an authentication in progress
@@ -854,6 +1010,13 @@ validate_public_key = Spec(
     raises={'AttributeError': True, 'AssertionError': True})
 
 
+def touch_stub(cx):
+    return [Out(event=('set_touch_required', (cx.recv, tuple(cx.args))))]
+
+
+touch_stub.modifies = ()
+
+
 def decode_key_stub(cx):
     k = cx.fresh('obj:Key', 'decoded_key')
     return [Out(ret=k, event=('decode_key', (tuple(cx.args), k))), Out(exc=VExc('KeyImportError'))]
@@ -935,6 +1098,47 @@ def vck_rejected(c):
     return z3.Implies(n, same)
 
 
+def opt_flag(c, v, name):
+    """options dict value v (after the call) has a truthy entry `name`"""
+    v = c.ex.deref(c.new_state, v)
+    if isinstance(v, VMap):
+        k = z3.StringVal(name)
+        return z3.And(z3.Select(v.dom, k), truthy_any(z3.Select(v.val, k)))
+    return z3.BoolVal(False)
+
+
+def touch_events_for(c, key):
+    return [e for e in c.events('set_touch_required') if isinstance(e[1][0], VRef) and e[1][0].addr == key.addr]
+
+
+def vck_touch(c):
+    """restriction of the accepted credential: user presence (touch) is required from a security key unless the
+    accepted authorized_keys entry says no-touch-required"""
+    n, k = opt_parts(c.result_v)
+    if k is None:
+        return z3.BoolVal(True)
+    evs = touch_events_for(c, k)
+    if len(evs) != 1:
+        return n
+    arg = evs[0][1][1][0]
+    return z3.Implies(z3.Not(n), c.truthy(arg) == z3.Not(opt_flag(c, c.newv('_key_options'), 'no-touch-required')))
+
+
+def vck_admitted(c):
+    """conversely: a key that authorized_keys lists for this peer, or that the application accepts for this user, is
+    admitted"""
+    n, k = opt_parts(c.result_v)
+    dec = c.events('decode_key')
+    if not dec:
+        return z3.BoolVal(True)
+    look = c.events('authkeys_validate')
+    own = c.events('owner_validate_public_key')
+    listed = z3.Not(opt_parts(look[0][1][2])[0]) if look else z3.BoolVal(False)
+    final = c.new_state.env.get('result')
+    accepted = c.truthy(final) if (own and final is not None) else z3.BoolVal(False)
+    return z3.Implies(z3.Or(listed, accepted), z3.Not(n))
+
+
 validate_client_public_key = Spec(
     PROP, 'connection', 'SSHServerConnection._validate_client_public_key', self_class='SSHServerConnection',
     params=dict(username='str', key_data='bytes'), classes=VPK_CLASSES,
@@ -943,9 +1147,11 @@ validate_client_public_key = Spec(
            'AuthKeys.validate': ev_stub('authkeys_validate', 'opt[' + OPTS + ']'),
            'Owner.validate_public_key': owner_call('owner_validate_public_key'),
            'await result': srv_await('await_result'),
-           'Key.set_touch_required': ev_stub('set_touch_required')},
+           'Key.set_touch_required': touch_stub},
     ensures=[('key-is-authorised-for-this-user-and-its-restrictions-stored', vck_post),
-             ('rejected-key-stores-no-restrictions', vck_rejected)],
+             ('rejected-key-stores-no-restrictions', vck_rejected),
+             ('touch-required-unless-the-accepted-entry-waives-it', vck_touch),
+             ('listed-or-accepted-key-is-admitted', vck_admitted)],
     returns='opt[obj:Key]', modifies=['_key_options', '_cert_options'],
     raises={'AttributeError': True})
 
@@ -1039,6 +1245,42 @@ def voc_rejected(c):
     return z3.Implies(n, z3.BoolVal(c.newv('_cert_options') is c.oldv('_cert_options')))
 
 
+def voc_touch(c):
+    """touch is waived only if BOTH the CA's authorized_keys entry and the certificate say no-touch-required"""
+    n, k = opt_parts(c.result_v)
+    if k is None:
+        return z3.BoolVal(True)
+    evs = touch_events_for(c, k)
+    if len(evs) != 1:
+        return n
+    arg = evs[0][1][1][0]
+    _cn, co = opt_parts(c.newv('_cert_options'))
+    waived = z3.And(opt_flag(c, c.newv('_key_options'), 'no-touch-required'),
+                    opt_flag(c, co, 'no-touch-required') if co is not None else z3.BoolVal(False))
+    return z3.Implies(z3.Not(n), c.truthy(arg) == z3.Not(waived))
+
+
+def voc_admitted(c):
+    """conversely: a certificate of a trusted / accepted CA that validates for the user and satisfies its
+    source-address restriction is admitted"""
+    n, _k = opt_parts(c.result_v)
+    look = c.events('authkeys_validate')
+    own = c.events('owner_validate_ca_key')
+    cv = c.events('cert_validate')
+    if not cv:
+        return z3.BoolVal(True)         # certificate validation failed or was not reached
+    listed = z3.Not(opt_parts(look[0][1][2])[0]) if look else z3.BoolVal(False)
+    final = c.new_state.env.get('result')
+    accepted = c.truthy(final) if (own and final is not None) else z3.BoolVal(False)
+    sa = c.events('any_network_matches')
+    cert = c.argv('cert')
+    copts = c.ex.get_field(c.old_state, cert, 'options')
+    addr_key = z3.StringVal('source-address')
+    restricted = z3.And(z3.Select(copts.dom, addr_key), truthy_any(z3.Select(copts.val, addr_key)))
+    addr_ok = z3.Or(z3.Not(restricted), sa[0][1][2].z if sa else z3.BoolVal(False))
+    return z3.Implies(z3.And(z3.Or(listed, accepted), addr_ok), z3.Not(n))
+
+
 validate_openssh_certificate = Spec(
     PROP, 'connection', 'SSHServerConnection._validate_openssh_certificate', self_class='SSHServerConnection',
     params=dict(username='str', cert='obj:Cert'), classes=CERT_CLASSES,
@@ -1050,9 +1292,11 @@ validate_openssh_certificate = Spec(
            'Cert.validate': cert_validate_stub,
            'ip_address': ev_stub('ip_address', 'opaque:IP'),
            'any': ev_stub('any_network_matches', 'bool'),
-           'Key.set_touch_required': ev_stub('set_touch_required')},
+           'Key.set_touch_required': touch_stub},
     ensures=[('certificate-is-authorised-for-this-user-and-its-restrictions-stored', voc_post),
-             ('rejected-certificate-stores-no-certificate-restrictions', voc_rejected)],
+             ('rejected-certificate-stores-no-certificate-restrictions', voc_rejected),
+             ('touch-waived-only-by-entry-and-certificate-together', voc_touch),
+             ('trusted-valid-certificate-is-admitted', voc_admitted)],
     returns='opt[obj:Key]', modifies=['_key_options', '_cert_options'],
     raises={'AttributeError': True})
 
@@ -1421,8 +1665,17 @@ def mic_over_request(ex, st):
                   ex.get_field(st, gss, 'complete').z)
 
 
+def gss_identity(ex, st, args):
+    """the identity presented to the application is the one the GSS context established (not a client-chosen name)"""
+    gss = ex.get_field(st, ex.self_ref, '_gss')
+    return z3.And(args[1].z == ex.get_field(st, gss, 'user').z, args[2].z == ex.get_field(st, gss, 'host').z)
+
+
+gss_principal_cred = cred_from('validate_gss_principal', extra=gss_identity)
+
+
 def gsskex_cred(ex, st):
-    return z3.And(mic_over_request(ex, st), cred_from('validate_gss_principal')(ex, st))
+    return z3.And(mic_over_request(ex, st), gss_principal_cred(ex, st))
 
 
 def gss_spec(qualname, cred, stubs, **kw):
@@ -1440,7 +1693,7 @@ gsskex_start = gss_spec(
 # gssapi-with-mic: _finish is started only after the context completed and (if it provides integrity) the MIC
 # over the request verified; _finish then asks the application about the principal
 gssmic_finish = gss_spec(
-    '_ServerGSSMICAuth._finish', cred_from('validate_gss_principal'),
+    '_ServerGSSMICAuth._finish', gss_principal_cred,
     {'self._conn.validate_gss_principal': awaited_validator('validate_gss_principal')}, params={}, raises={})
 
 GSS_BOOK = dict(BOOK_CLASSES, ServerAuth=dict(BOOK_FIELDS, _gss='obj:GSS'), GSS=GSS)
@@ -1608,11 +1861,17 @@ validate_host_based_auth.opaque_attrs = dict(C04.match_known_hosts_conn.opaque_a
 # Frame by scan (DESIGN 2.5): J / G / the rely B are statements about every writer of these fields and about
 # every caller of send_userauth_success.  The scan re-reads asyncssh/*.py on every run.
 # ====================================================================================================
-SCAN_FIELDS = {'_username', '_auth', '_auth_complete', '_key_options', '_cert_options', '_coro'}
+SCAN_FIELDS = {'_username', '_auth', '_auth_complete', '_key_options', '_cert_options', '_coro',
+               # per-user configuration read by the credential checks (reload_config), generations
+               '_options', '_authorized_client_keys', '_public_key_auth', '_password_auth', '_kbdint_auth',
+               '_host_based_auth', '_auth_gen', '_config_gen'}
 SCAN_CLASSES = {'Auth', 'ServerAuth', 'SSHConnection', 'SSHServerConnection', 'SSHClientConnection'}
 SCAN_EXEMPT = {
     ('SSHConnection', '_cleanup'): 'connection teardown: cancels the auth object before dropping it',
     ('SSHClientConnection', 'try_next_auth'): 'client side: cancels the previous attempt before replacing it',
+    ('SSHServerConnection', 'set_authorized_keys'):
+        'public API for the application (typically called from begin_auth(username)): the application answers for '
+        'the user whose keys it installs',
 }
 GRANT_CALLERS = {('ServerAuth', 'send_success'), ('SSHConnection', '_finish_userauth')}
 # the functions that store restrictions run only on behalf of the current public-key attempt: their call sites
@@ -1623,6 +1882,13 @@ LOOKUP_CALLERS = {
     '_validate_x509_certificate_chain': {('SSHServerConnection', '_validate_client_certificate')},
 }
 CONN_VALIDATE_CALLERS = {('_ServerPublicKeyAuth', '_start')}     # self._conn.validate_public_key(...)
+# server auth code that answers a request or starts a task: every such function must have a C05 Spec
+AUTH_ACTIONS = {'send_success', 'send_failure', 'create_task'}
+
+
+def _is_server_auth(name):
+    from pyvc import extract
+    return name in ('Auth', 'ServerAuth') or (extract.is_subclass(name, 'ServerAuth'))
 
 
 def extra_checks(tier, seed):
@@ -1631,7 +1897,7 @@ def extra_checks(tier, seed):
     import os
     from pyvc import extract
     covered = {tuple(s.qualname.split('.')) for s in Spec.registry if s.prop == PROP and '.' in s.qualname}
-    stray_writers, stray_callers, stray_lookups = [], [], []
+    stray_writers, stray_callers, stray_lookups, stray_auth = [], [], [], []
     for path in sorted(glob.glob(os.path.join(extract.PKG, '*.py'))):
         tree = ast.parse(open(path, encoding='utf-8').read())
         for cls in [n for n in ast.walk(tree) if isinstance(n, ast.ClassDef)]:
@@ -1650,6 +1916,11 @@ def extra_checks(tier, seed):
                     if isinstance(n, ast.Call) and isinstance(n.func, ast.Attribute) and \
                             n.func.attr == 'send_userauth_success' and where not in GRANT_CALLERS:
                         stray_callers.append(f'{os.path.basename(path)}:{n.lineno} {cls.name}.{fn.name}')
+                    if isinstance(n, ast.Call) and isinstance(n.func, ast.Attribute) and \
+                            os.path.basename(path) == 'auth.py' and n.func.attr in AUTH_ACTIONS and \
+                            ast.unparse(n.func.value) == 'self' and _is_server_auth(cls.name) and \
+                            where not in covered:
+                        stray_auth.append(f'auth.py:{n.lineno} {cls.name}.{fn.name} calls self.{n.func.attr}')
                     if isinstance(n, ast.Call) and isinstance(n.func, ast.Attribute):
                         if n.func.attr in LOOKUP_CALLERS and where not in LOOKUP_CALLERS[n.func.attr]:
                             stray_lookups.append(f'{os.path.basename(path)}:{n.lineno} {cls.name}.{fn.name} calls '
@@ -1669,6 +1940,9 @@ def extra_checks(tier, seed):
         {'name': f'{PROP}.scan#frame(send_userauth_success-call-sites)',
          'verdict': 'proved' if not stray_callers else 'unknown',
          'reason': '; '.join(stray_callers[:5]) or None},
+        {'name': f'{PROP}.scan#frame(every-server-auth-function-that-answers-or-spawns-is-under-contract)',
+         'verdict': 'proved' if not stray_auth else 'unknown',
+         'reason': '; '.join(stray_auth[:5]) or None},
         {'name': f'{PROP}.scan#frame(restriction-storing-look-ups-call-sites)',
          'verdict': 'proved' if not stray_lookups else 'unknown',
          'reason': '; '.join(stray_lookups[:5]) or None},
@@ -1687,7 +1961,7 @@ ASSUMPTIONS += [
     'a value or raise; signature verification (key.verify), authorized_keys matching (SSHAuthorizedKeys.validate), '
     'certificate validation (cert.validate), SASLprep and the GSS context are abstract objects (assumed contracts)',
     'source-address matching in _validate_openssh_certificate (ip_address / any(... in network ...)) is abstract',
-    'not reached: _ServerGSSMICAuth._start/_process_token/_process_error_token (no success path), X.509 chain '
+    'not reached: X.509 chain '
     'validation itself (cert.validate_chain, SSHAuthorizedKeys.validate_x509 are abstract), port / agent / X11 '
     'forwarding permission sites (C20), the client credential sources (agent, PKCS#11)',
     'host based: the host-key decision and the trust-set producer are used through their C04 contracts '
@@ -1696,6 +1970,13 @@ ASSUMPTIONS += [
     'the restrictions half: pristine when an attempt starts, written only by the verified look-ups (call sites by '
     'scan), enforced at channel.py SSHServerChannel.__init__ (environment=), _process_pty_req_request (no-pty / '
     'permit-pty), _start_session (force-command over command= over the client request)',
+    'per-user configuration: _options.ghost_for_user is the user an SSHServerConnectionOptions object was constructed '
+    'for; helper invariant C (generation counters _auth_gen/_config_gen, from the code) and the generation rely at '
+    'awaits are proved on _process_userauth_request / _finish_userauth / reload_config / send_userauth_success / '
+    'send_userauth_failure; other writers of the configuration fields are pinned by the scan',
+    'SSHServerConnection.validate_password / change_password / get_kbdint_challenge / validate_kbdint_response / '
+    'validate_gss_principal are verified forwarders; the auth-side stubs (awaited_validator) keep modelling the '
+    'await + rely B and take their result predicate from those Specs by composition, not through contract_stub',
     'open (audit 6, 7): the request handed to a new auth object is not tied to the user it named beyond the '
     'begin_auth/username test in _finish_userauth; G is an explicit clause only on _process_userauth_request and '
     'send_userauth_success (for _finish_userauth it is the pre-at-call replaced-auth-object-is-cancelled; '
@@ -1886,3 +2167,286 @@ def empty_principals_never_satisfy(c):
 
 authorized_keys_match_options.ensures = list(authorized_keys_match_options.ensures) + [
     ('certificate-without-principals-never-satisfies-a-principals-restriction', empty_principals_never_satisfy)]
+
+
+# ====================================================================================================
+# SSHServerConnection methods between the auth objects and the application (second audit, 3): the auth Specs say
+# "conn.validate_password(self._username, pw) was true"; these Specs say what that means - the application callback
+# was asked about THIS user with THESE arguments and its (awaited) answer is what is returned.
+# (The auth-side stubs `awaited_validator` keep modelling the await + rely; their result predicate is these Specs'.)
+# ====================================================================================================
+FWD_CLASSES = {'SSHServerConnection': {'_owner': 'opt[obj:Owner]', '_kbdint_password_auth': 'bool'}, 'Owner': {}}
+
+
+def fwd_await(name='await_result', raises=()):
+    def stub(cx):
+        v = cx.fresh('any', name)
+        outs = [Out(ret=v, event=(name, (tuple(cx.args), v)))]
+        for r in raises:
+            outs.append(Out(exc=VExc(r), event=(name + '!raise', (tuple(cx.args), None))))
+        return outs
+    stub.modifies = ()
+    return stub
+
+
+def owner_cb(name, raises=()):
+    def stub(cx):
+        v = cx.fresh('any', name)
+        outs = [Out(ret=v, event=(name, (tuple(cx.args), v)))]
+        for r in raises:
+            outs.append(Out(exc=VExc(r), event=(name + '!raise', (tuple(cx.args), None))))
+        return outs
+    stub.modifies = ()
+    return stub
+
+
+def forwarded(c, cb, argnames, awaitname='await_result'):
+    """(the callback was called exactly once with exactly these arguments, the value finally returned)"""
+    evs = c.events(cb)
+    if len(evs) != 1:
+        return z3.BoolVal(False), None
+    args, ret = evs[0][1]
+    ok = [z3.BoolVal(len(args) == len(argnames))]
+    for a, n in zip(args, argnames):
+        want = c.argv(n)
+        ok.append(c.eq(a, want))
+    aw = c.events(awaitname)
+    isaw = z3.Function('isawaitable_Any', opaque_sort('Any'), BoolS)(ret.z)
+    if aw:
+        (aargs, av) = aw[0][1]
+        ok += [z3.BoolVal(len(aw) == 1 and aargs[0] is ret), isaw]
+        final = av
+    else:
+        ok.append(z3.Not(isaw))
+        final = ret
+    return z3.And(ok), final
+
+
+def fwd_post(cb, argnames):
+    def post(c):
+        """the value returned is the application's answer (awaited if awaitable) to exactly this question"""
+        ok, final = forwarded(c, cb, argnames)
+        if final is None:
+            return z3.BoolVal(False)
+        return z3.And(ok, z3.BoolVal(c.result_v is final))
+    return post
+
+
+def fwd_spec(qualname, cb, params, raises=None):
+    return Spec(
+        PROP, 'connection', 'SSHServerConnection.' + qualname, self_class='SSHServerConnection',
+        params=params, classes=FWD_CLASSES,
+        stubs={'Owner.' + cb: owner_cb(cb), 'await result': fwd_await()},
+        ensures=[('answer-of-the-application-for-this-user-and-these-arguments', fwd_post(cb, list(params)))],
+        raises=dict({'AttributeError': True}, **(raises or {})))
+
+
+conn_validate_password = fwd_spec('validate_password', 'validate_password', dict(username='str', password='str'))
+conn_change_password = fwd_spec('change_password', 'change_password',
+                                dict(username='str', old_password='str', new_password='str'))
+conn_validate_gss_principal = fwd_spec('validate_gss_principal', 'validate_gss_principal',
+                                       dict(username='str', user_principal='str', host_principal='str'))
+
+
+def gkc_post(c):
+    """password emulation: always a (name, instruction, lang, prompts) challenge - never a verdict; otherwise the
+    application's answer for this user"""
+    r = c.result_v
+    emu = c.old('_kbdint_password_auth')
+    evs = c.events('get_kbdint_challenge')
+    if not evs:
+        return z3.And(emu, z3.BoolVal(isinstance(r, VTuple) and len(r.items) == 4))
+    ok, final = forwarded(c, 'get_kbdint_challenge', ['username', 'lang', 'submethods'], 'await_challenge')
+    return z3.And(z3.Not(emu), ok, z3.BoolVal(r is final))
+
+
+conn_get_kbdint_challenge = Spec(
+    PROP, 'connection', 'SSHServerConnection.get_kbdint_challenge', self_class='SSHServerConnection',
+    params=dict(username='str', lang='str', submethods='str'), classes=FWD_CLASSES,
+    stubs={'Owner.get_kbdint_challenge': owner_cb('get_kbdint_challenge'), 'await result': fwd_await('await_challenge')},
+    ensures=[('challenge-or-the-applications-answer-for-this-user', gkc_post)],
+    raises={'AttributeError': True})
+
+
+def vkr_post(c):
+    """password emulation: a true verdict only if there is exactly one response and the application accepted it as
+    THIS user's password (PasswordChangeRequired counts as a refusal); otherwise the application's answer"""
+    r = c.result_v
+    emu = c.old('_kbdint_password_auth')
+    resp = c.arg('responses')
+    pw = c.events('validate_password')
+    pcr = c.events('validate_password!raise') + c.events('await_pw!raise')
+    kb = c.events('validate_kbdint_response')
+    if kb:
+        ok, final = forwarded(c, 'validate_kbdint_response', ['username', 'responses'], 'await_result')
+        return z3.And(z3.Not(emu), ok, z3.BoolVal(r is final))
+    granted = c.truthy(r)
+    if pcr or not pw:
+        return z3.And(emu, z3.Not(granted))
+    args, ret = pw[0][1]
+    aw = c.events('await_pw')
+    isaw = z3.Function('isawaitable_Any', opaque_sort('Any'), BoolS)(ret.z)
+    final = aw[0][1][1] if aw else ret
+    return z3.And(emu, z3.BoolVal(len(pw) == 1), z3.Length(resp) == 1, args[0].z == c.arg('username'),
+                  args[1].z == resp[0], isaw if aw else z3.Not(isaw), z3.BoolVal(r is final))
+
+
+conn_validate_kbdint_response = Spec(
+    PROP, 'connection', 'SSHServerConnection.validate_kbdint_response', self_class='SSHServerConnection',
+    params=dict(username='str', responses='seq[str]'), classes=FWD_CLASSES,
+    stubs={'Owner.validate_password': owner_cb('validate_password', raises=['PasswordChangeRequired']),
+           'await pw_result': fwd_await('await_pw', raises=['PasswordChangeRequired']),
+           'Owner.validate_kbdint_response': owner_cb('validate_kbdint_response'),
+           'await result': fwd_await('await_result')},
+    ensures=[('verdict-only-from-the-application-for-this-user', vkr_post)],
+    raises={'AttributeError': True})
+
+
+
+# ---- the data a GSS MIC is computed over (RFC 4462 3.5 / RFC 4252 7): session identifier, then the request
+RD_FIELDS = {'_session_id': 'bytes', '_username': 'str'}
+
+
+def _str_be4(z):
+    from pyvc.builtins_model import be
+    return z3.Concat(be(z3.IntVal(4), z3.Length(z)), z)
+
+
+def request_packet_term(c, args_joined):
+    utf8 = z3.Function('utf8', StrS, BytesS)
+    u = utf8(c.old('_username'))
+    return z3.Concat(z3.Unit(z3.IntVal(50)), _str_be4(u), _str_be4(bytes_const(b'ssh-connection')),
+                     _str_be4(c.arg('method')), args_joined)
+
+
+get_userauth_request_packet = Spec(
+    PROP, 'connection', 'SSHConnection._get_userauth_request_packet', self_class='SSHConnection',
+    params=dict(method='bytes', args='seq[bytes]'), classes={'SSHConnection': RD_FIELDS},
+    # the server-side callers (GSS MIC data) pass no extra fields: args == ()
+    cases=[('no-extra-fields', {'arg:args': ()})],
+    ensures=[('byte(50)-user-service-method', lambda c: c.result == request_packet_term(c, z3.Empty(BytesS)))],
+    returns='bytes', modifies=[])
+
+get_userauth_request_data = Spec(
+    PROP, 'connection', 'SSHConnection.get_userauth_request_data', self_class='SSHConnection',
+    params=dict(method='bytes', args='seq[bytes]'), classes={'SSHConnection': RD_FIELDS},
+    stubs={'self._get_userauth_request_packet': ev_stub('request_packet', 'bytes')},
+    ensures=[('session-id-then-this-request', lambda c: (lambda ev: z3.And(
+        z3.BoolVal(len(ev) == 1),
+        z3.BoolVal(False) if len(ev) != 1 else z3.And(
+            ev[0][1][0][0].z == c.arg('method'),
+            c.result == z3.Concat(_str_be4(c.old('_session_id')), ev[0][1][2].z))))(c.events('request_packet')))],
+    returns='bytes', modifies=[])
+
+
+
+# ---- method switches: a method is offered / usable only if the (per-user) configuration enables it
+SUP_FIELDS = {'_owner': 'opt[obj:Owner]', '_public_key_auth': 'bool', '_password_auth': 'bool',
+              '_host_based_auth': 'bool', '_kbdint_auth': 'bool', '_gss_kex_auth': 'bool', '_gss_mic_auth': 'bool',
+              '_authorized_client_keys': 'opt[obj:AuthKeys]', '_known_client_hosts': 'opt[obj:KnownHosts]',
+              '_gss': 'opt[obj:GSS]', '_kbdint_password_auth': 'bool'}
+SUP_CLASSES = {'SSHServerConnection': SUP_FIELDS, 'Owner': {}, 'AuthKeys': {}, 'KnownHosts': {},
+               'GSS': {'complete': 'bool'}}
+
+
+def sup_post(switch, cb, store=None):
+    def post(c):
+        """offered only if the configuration switch is on AND (a trust store is configured OR the application
+        offers the method)"""
+        evs = c.events(cb)
+        app = c.truthy(evs[0][1][2]) if evs else z3.BoolVal(False)
+        backing = app
+        if store is not None:
+            backing = z3.Or(c.truthy(c.oldv(store), c.old_state), app)
+        return c.truthy(c.result_v) == z3.And(c.old(switch), backing)
+    return post
+
+
+def sup_spec(qualname, switch, cb, store=None):
+    return Spec(PROP, 'connection', 'SSHServerConnection.' + qualname, self_class='SSHServerConnection',
+                classes=SUP_CLASSES, stubs={'Owner.' + cb: ev_stub(cb, 'bool')},
+                ensures=[('offered-iff-enabled-and-backed', sup_post(switch, cb, store))],
+                raises={'AttributeError': True})
+
+
+public_key_auth_supported = sup_spec('public_key_auth_supported', '_public_key_auth', 'public_key_auth_supported',
+                                     '_authorized_client_keys')
+password_auth_supported = sup_spec('password_auth_supported', '_password_auth', 'password_auth_supported')
+host_based_auth_supported = sup_spec('host_based_auth_supported', '_host_based_auth', 'host_based_auth_supported',
+                                     '_known_client_hosts')
+gss_mic_auth_supported = Spec(
+    PROP, 'connection', 'SSHServerConnection.gss_mic_auth_supported', self_class='SSHServerConnection',
+    classes=SUP_CLASSES, ensures=[('offered-iff-enabled', lambda c: c.truthy(c.result_v) == c.old('_gss_mic_auth'))])
+gss_kex_auth_supported = Spec(
+    PROP, 'connection', 'SSHServerConnection.gss_kex_auth_supported', self_class='SSHServerConnection',
+    classes=SUP_CLASSES,
+    ensures=[('offered-iff-enabled-and-context-complete', lambda c: c.truthy(c.result_v) == z3.And(
+        c.old('_gss_kex_auth'), c.ex.get_field(c.old_state, opt_parts(c.oldv('_gss'))[1], 'complete').z))],
+    raises={'AssertionError': lambda c: z3.And(c.old('_gss_kex_auth'), c.is_none(c.oldv('_gss')))})
+
+
+def kbd_sup_post(c):
+    """offered only if the configuration switch is on and the application offers keyboard-interactive (True) or
+    leaves it unimplemented while offering passwords (then the password emulation is switched on)"""
+    evs = c.events('kbdint_auth_supported')
+    if not evs:
+        return z3.And(z3.Not(c.old('_kbdint_auth')), z3.Not(c.truthy(c.result_v)))
+    return z3.Implies(c.truthy(c.result_v), c.old('_kbdint_auth'))
+
+
+kbdint_auth_supported = Spec(
+    PROP, 'connection', 'SSHServerConnection.kbdint_auth_supported', self_class='SSHServerConnection',
+    classes=SUP_CLASSES,
+    stubs={'Owner.kbdint_auth_supported': ev_stub('kbdint_auth_supported', 'any'),
+           'Owner.password_auth_supported': ev_stub('password_auth_supported', 'bool')},
+    globals={'NotImplemented': VTag('NotImplemented')},
+    ensures=[('offered-only-if-enabled', kbd_sup_post)], raises={'AttributeError': True})
+
+
+# ---- gssapi-with-mic: the functions without a success path are pinned as such ("never")
+GSSM_FIELDS = dict(AUTH_FIELDS, _gss='obj:GSS')
+GSSM_CLASSES = dict(AUTH_CLASSES, ServerAuth=GSSM_FIELDS, GSS=dict(GSS, mechs='seq[bytes]'))
+
+
+def executor_stub(cx):
+    """await run_in_executor(self._gss.step, token): next token or GSSError (library); an await"""
+    v = cx.fresh('opt[bytes]', 'gss_token')
+    maj, mn, tok = cx.fresh('int', 'maj'), cx.fresh('int', 'min'), cx.fresh('opt[bytes]', 'errtok')
+    e = VExc('GSSError', args=(maj, mn, tok), attrs={'maj_code': maj, 'min_code': mn, 'token': tok})
+    return [rely_outs(cx, v, ('gss_step', (tuple(cx.args), v))),
+            rely_outs(cx, VNone, ('gss_step!raise', (tuple(cx.args), None)), exc=e)]
+
+
+executor_stub.modifies = ()
+
+
+def never_spec(qualname, stubs, params=None, loops=None, local_types=None, raises=None):
+    st = {'self.send_success': send_success_stub(never), 'self.send_failure': send_failure_stub,
+          'self.send_packet': auth_send_packet_stub}
+    st.update(stubs)
+    return Spec(
+        PROP, 'auth', qualname, self_class='ServerAuth', params=params or dict(packet='obj:SSHPacket'),
+        classes=GSSM_CLASSES, inline=dict(PACKET_INLINE), truthy=PACKET_TRUTHY, stubs=st,
+        loops=loops or {}, local_types=local_types or {},
+        requires=lambda c: z3.And(packet_wf(c, c.argv('packet')), not_cancelled(c.ex, c.new_state),
+                                  bound(c.ex, c.new_state)),
+        always=[('never-grants', no_success)],
+        raises=raises if raises is not None else {'PacketDecodeError': True, 'Exception': True})
+
+
+_gm_l1 = LoopSpec(invariant=lambda c: packet_wf(c, c.localv('packet')))
+_gm_l1.havoc_locals = ['packet']
+_gm_l2 = LoopSpec(invariant=lambda c: z3.BoolVal(True))
+gssmic_start = never_spec(
+    '_ServerGSSMICAuth._start', {'GSS.reset': ev_stub('gss_reset')},
+    loops={1: _gm_l1, 2: _gm_l2},
+    local_types={'packet': 'obj:SSHPacket', 'mechs': 'set[bytes]', 'match': 'opt[bytes]', 'mech': 'bytes'})
+gssmic_start.feasible_timeout_ms = 400
+
+TOKEN_PARAMS = dict(_pkttype='int', _pktid='int', packet='obj:SSHPacket')
+gssmic_process_token = never_spec(
+    '_ServerGSSMICAuth._process_token', {'run_in_executor': executor_stub,
+                                         'str': lambda cx: cx.fresh('str', 'str_of_exc')}, params=TOKEN_PARAMS)
+gssmic_process_error_token = never_spec(
+    '_ServerGSSMICAuth._process_error_token', {'run_in_executor': executor_stub,
+                                               'str': lambda cx: cx.fresh('str', 'str_of_exc')}, params=TOKEN_PARAMS)
